@@ -314,8 +314,10 @@ PROPS = {
         "assumptions": ["the Proposal's own randomness is outside this property (candidates are scripted)"],
     },
     "C16": {
-        "obligations": [CAT + n for n in ["sample_in_range", "sample_pos_prob", "scan_pos", "normalize_sum_one", "normalize_nonneg",
+        "module": "MiniMcmcVerif.Props.C16Measure",
+        "obligations": [CAT + n for n in ["exists_region", "preimage_eq", "sample_probability", "sample_in_range", "sample_pos_prob", "scan_pos", "normalize_sum_one", "normalize_nonneg",
                                           "scan_region", "sample_region", "region_length", "lastPos_pos", "lastPos_none"]],
+        "level_extra": "As a statement about Lebesgue measure (sample_probability): for non-negative probabilities summing to one the set of variates r in [0,1) that the scan maps to category j has measure exactly p_j.",
         "level_text": "Theorems: for EVERY variate r that is not below 0 (0 and 1-ulp included) and every weight list whose entries are 0 or positive with one positive, "
                       "the scan model returns an in-range index of positive probability — proved over an arbitrary carrier using only 'r < x+0 -> r < x', so it holds for IEEE floats "
                       "including absorption; in exact arithmetic the variates mapped to category j are exactly [c_{j-1}, c_j) of length p_j; normalised probabilities sum to 1. "
